@@ -111,10 +111,34 @@ def make_harness(cases):
             return build(recipe, {} if kind == "shared" else None)
 
         prehistory = "none"
+        # violations after a prehistory carry it in their signature, so that the scenarios kept for the replay
+        # include ones that bring their own cause along (a library object that outlives a path, such as a shared
+        # decoder, makes later paths fail too, and those do not reproduce in the fresh replay process)
+        sfx = lambda: "" if prehistory == "none" else ":after-" + prehistory.split("-")[0] + "-" + prehistory.split("-")[1]  # noqa: E731
         if kind in ("plain", "shared"):
             earlier, nchanged = _earlier_version(recipe) if kind == "plain" else (None, 0)
-            options = ["none", "another-tree-written-with-every-option-and-dialect-first", "sources-registered-by-name-before-their-text-was-known"] + (["earlier-version-written-then-detached", "earlier-version-written-then-replaced-by-a-fresh-build"] if nchanged else [])
+            options = ["none", "another-tree-written-with-every-option-and-dialect-first", "sources-registered-by-name-before-their-text-was-known", "malformed-payloads-read-and-rejected-first"] + (["earlier-version-written-then-detached", "earlier-version-written-then-replaced-by-a-fresh-build"] if nchanged else [])
             prehistory = e.pick(options, "prehistory")
+            if prehistory.startswith("malformed-payloads"):
+                # reads of broken documents earlier in the process (trailing data, a truncated document, garbage)
+                # in every format: each is rejected, and none leaves anything behind for later reads
+                from models.zoo import VLeaf, VMany
+
+                good = VMany(items=(VLeaf(v=991), VLeaf(v=992)))
+                mp, js, ya = good.to_msgpck(), good.to_json(), good.to_yaml()
+                good.detach()
+                del good
+                for reader, doc in (
+                    (VMany.from_msgpck, mp + mp), (VMany.from_msgpck, mp[: len(mp) // 2]), (VMany.from_msgpck, b"\xc1\xff\x00"), (VMany.from_msgpck, mp + b"\x93\x01\x02"),
+                    (VMany.from_json, js + js), (VMany.from_json, js[: len(js) // 2]), (VMany.from_yaml, ya[: len(ya) // 2] + "\n  - : :"), (VMany.as_obj, {"__type": "VMany", "items": 5}),
+                ):
+                    try:
+                        r_ = reader(doc)
+                        if hasattr(r_, "detach"):
+                            r_.detach()
+                    except Exception:  # noqa: BLE001
+                        pass
+                NODE_REGISTRY.clear()
             if prehistory.startswith("sources-registered"):
                 # what a loader does: sources become known by type and uri (no text), other sources
                 # follow, and only then the same sources are created again with their text
@@ -221,14 +245,14 @@ def make_harness(cases):
                 back = cls_of.from_yaml(data, serialization_options=opts)
         except Exception as ex:  # noqa: BLE001
             scenario.update(raised=f"{type(ex).__name__}: {ex}"[:300])
-            e.fail("deserialization-raises", scenario=scenario)
+            e.fail("deserialization-raises" + sfx(), scenario=scenario)
         new_nodes = [node_at(back, p) for p in paths]
         for k, (s, m) in enumerate(zip(snap, new_nodes)):
             where = str(s["path"])
             if k in alive:
                 if m is not alive[k]:
                     scenario.update(at=where)
-                    e.fail("registered-original-not-returned", scenario=scenario)
+                    e.fail("registered-original-not-returned" + sfx(), scenario=scenario)
                 continue
             taken_over = s["id"] in ghost and id(ghost[s["id"]]) != s["obj"]
             if taken_over:
@@ -240,38 +264,38 @@ def make_harness(cases):
                 continue
             if type(m) is not s["cls"] or m.id != s["id"] or m.content_id != s["content_id"]:
                 scenario.update(at=where, got=(type(m).__name__, m.id, m.content_id), expected=(s["cls"].__name__, s["id"], s["content_id"]))
-                e.fail("class-id-or-content_id-differs", scenario=scenario)
+                e.fail("class-id-or-content_id-differs" + sfx(), scenario=scenario)
             for f, v in s["props"].items():
                 g = getattr(m, f)
                 if g != v or type(g) is not type(v):
                     scenario.update(at=where, field=f, got=repr(g), expected=repr(v))
-                    e.fail("property-value-differs", scenario=scenario)
+                    e.fail("property-value-differs" + sfx(), scenario=scenario)
             if m.origin != s["origin"] or type(m.origin) is not type(s["origin"]):
                 scenario.update(at=where, got=repr(m.origin)[:200], expected=repr(s["origin"])[:200])
-                e.fail("origin-differs", scenario=scenario)
+                e.fail("origin-differs" + sfx(), scenario=scenario)
             if s["origin"] is NO_ORIGIN and (m.origin is not NO_ORIGIN or m.origin.source is not NO_SOURCE or m.origin.position is not NO_POSITION):
                 scenario.update(at=where)
-                e.fail("No-singletons-not-restored", scenario=scenario)
+                e.fail("No-singletons-not-restored" + sfx(), scenario=scenario)
             if ASTNode.get_any(m.id) is not m:
                 scenario.update(at=where)
-                e.fail("deserialized-node-not-registered", scenario=scenario)
+                e.fail("deserialized-node-not-registered" + sfx(), scenario=scenario)
         # the registry stays well-formed: every key is the id of the node it maps to
         for key, obj in list(NODE_REGISTRY.items()):
             if obj.id != key:
                 scenario.update(registry_key=key, node_id=obj.id)
-                e.fail("registry-key-differs-from-node-id", scenario=scenario)
+                e.fail("registry-key-differs-from-node-id" + sfx(), scenario=scenario)
         for ks in share_classes.values():
             if len({id(new_nodes[k]) for k in ks}) != 1:
                 scenario.update(shared_positions=[str(snap[k]["path"]) for k in ks])
-                e.fail("shared-node-no-longer-shared", scenario=scenario)
+                e.fail("shared-node-no-longer-shared" + sfx(), scenario=scenario)
         if liveness == "all-alive" and not (back == alive[0]):
-            e.fail("result-not-equal-to-original", scenario=scenario)
+            e.fail("result-not-equal-to-original" + sfx(), scenario=scenario)
         # the tree read back is written again, without options: the same plain text as before
         # (whatever options the two calls above carried)
         plain_after = back.to_json()
         if plain_after != plain_before:
             scenario.update(plain_before=plain_before[:200], plain_after=plain_after[:200])
-            e.fail("plain-serialization-of-the-result-differs-from-that-of-the-original", scenario=scenario)
+            e.fail("plain-serialization-of-the-result-differs-from-that-of-the-original" + sfx(), scenario=scenario)
         e.distinct((cno, twins, prehistory, fmt, optimized, liveness, scenario.get("alive_subtree")))
         return scenario
 
